@@ -620,7 +620,17 @@ func exec(run *core.Run, pl interface{}) {
 				continue
 			}
 			u, ok := authenticated(o)
-			if !m.adminExists() {
+			// The exception for the first administrator holds "before any
+			// user exists". Once users exist and the last administrator has
+			// been dropped or demoted, nothing runs without valid credentials
+			// and authority - in particular nobody may make themselves
+			// administrator anonymously. (The node then skips authentication
+			// and refuses every statement: what it refuses is not judged.)
+			noAdmin := !m.adminExists()
+			if noAdmin && len(m.users) > 0 {
+				run.Probe("request-after-last-admin-removed")
+			}
+			if len(m.users) == 0 {
 				// only the creation of the first administrator may run
 				run.Probe("request-before-first-admin")
 				for _, s := range stm {
@@ -650,7 +660,7 @@ func exec(run *core.Run, pl interface{}) {
 				run.Fail("statement-executed-without-authority", siteOf(texts), "op%d: %q (default database %q) with credentials %s -> %d, executed %v although %s", i, form.Get("q"), def, describeCred(o), code, stm, why(m, o, needs))
 				return
 			}
-			if allowed && !needsDefault && !lower && len(stm) != len(texts) {
+			if allowed && !noAdmin && !needsDefault && !lower && len(stm) != len(texts) {
 				run.Fail("authorised-statement-refused", siteOf(texts), "op%d: %q (default database %q) with credentials %s -> %d %s, executed only %v although %s", i, form.Get("q"), def, describeCred(o), code, strings.TrimSpace(body), stm, why(m, o, needs))
 				return
 			}
